@@ -81,6 +81,11 @@ func RandomSchema(r *hx.Rand) *SchemaDesc {
 		if r.Chance(1, 8) {
 			f.Args = append(f.Args, ArgDesc{Name: "l", Type: ListOf(Named("Int"))})
 		}
+		if r.Chance(1, 6) {
+			// a required argument the resolver ignores: a null reaching it (explicit null for a defaulted
+			// variable) is a field error
+			f.Args = append(f.Args, ArgDesc{Name: "r", Type: NonNull(Named("Int"))})
+		}
 		if _, ok := global[name]; !ok {
 			global[name] = f
 		}
@@ -248,7 +253,7 @@ func (g *docGen) dirs() []DirUse {
 			b := g.r.Bool()
 			d.Lit = &b
 		} else {
-			d.Var = hx.Pick(g.r, []string{"b0", "b1", "bd"})
+			d.Var = hx.Pick(g.r, []string{"b0", "b1", "bd", "bd", "bn"})
 			g.used[d.Var] = true
 		}
 		out = append(out, d)
@@ -275,6 +280,14 @@ func (g *docGen) field(parent *TypeDesc, f *FieldDesc, depth int) *Sel {
 				if g.r.Chance(3, 4) {
 					s.Alias = f.Name + "v"
 				}
+			}
+		case "r":
+			if g.noVars || g.r.Chance(3, 5) {
+				s.Args = append(s.Args, ArgUse{Name: "r", Value: hx.Pick(g.r, []string{"1", "2"})})
+			} else {
+				// a nullable variable with a default is allowed at a non-null argument
+				s.Args = append(s.Args, ArgUse{Name: "r", Value: "$nd"})
+				g.used["nd"] = true
 			}
 		case "l":
 			switch {
@@ -450,7 +463,7 @@ func RandomRequest(r *hx.Rand, s *SchemaDesc) *Request {
 		// variables
 		vars := map[string]interface{}{}
 		defs := []VarDef{}
-		for _, v := range []string{"b0", "b1", "bd", "k0", "u"} {
+		for _, v := range []string{"b0", "b1", "bd", "bn", "k0", "u", "nd"} {
 			if !g.used[v] {
 				continue
 			}
@@ -460,8 +473,27 @@ func RandomRequest(r *hx.Rand, s *SchemaDesc) *Request {
 				vars[v] = r.Bool()
 			case "bd":
 				defs = append(defs, VarDef{Name: v, Type: "Boolean", Default: strconv.FormatBool(r.Bool())})
-				if r.Chance(1, 2) {
+				switch r.Intn(8) {
+				case 0:
+					vars[v] = nil // explicitly null: the default does not apply
+				case 1, 2, 3:
 					vars[v] = r.Bool()
+				}
+			case "bn":
+				defs = append(defs, VarDef{Name: v, Type: "Boolean!", Default: strconv.FormatBool(r.Bool())})
+				switch r.Intn(10) {
+				case 0:
+					vars[v] = nil // explicitly null for a non-null variable: a request error, whatever the default
+				case 1, 2, 3, 4:
+					vars[v] = r.Bool()
+				}
+			case "nd":
+				defs = append(defs, VarDef{Name: v, Type: "Int", Default: "7"})
+				switch r.Intn(3) {
+				case 0:
+					vars[v] = nil // explicitly null: the default does not apply, a non-null argument fails
+				case 1:
+					vars[v] = r.Intn(5)
 				}
 			case "k0":
 				defs = append(defs, VarDef{Name: v, Type: "Int"})
